@@ -339,6 +339,91 @@ def _single_return(fn):
     return rets
 
 
+# cosine of the documented angle and its threshold, per angle-threshold predicate
+_ANGLE_PREDICATES = {
+    "checkGroundSensorLightingConditions": ("dot(sun_eci_unit_vector, sensor_eci_position) / norm(sensor_eci_position)", "PI / 2 + buffer_angle"),
+    "checkSpaceSensorLightingConditions": ("dot(sun_eci_unit_vector, boresight_eci_vector) / norm(boresight_eci_vector)", "cone_angle"),
+    "checkGalacticExclusionZone": ("dot(GALACTIC_CENTER_ECI[:3], boresight_eci_vector) / (norm(GALACTIC_CENTER_ECI[:3]) * norm(boresight_eci_vector))", "cone_angle"),
+}
+
+
+def _sort_dots(e):
+    """dot / vdot / inner are symmetric: order their two arguments by text."""
+    import copy
+
+    class S(ast.NodeTransformer):
+        def visit_Call(self, n):
+            self.generic_visit(n)
+            if call_name(n) in ("dot", "vdot", "inner") and len(n.args) == 2 and not n.keywords:
+                n.args = sorted(n.args, key=unparse)
+            return n
+
+    return S().visit(copy.deepcopy(e))
+
+
+def _angle_threshold(fn, cmp_):
+    """Read `angle OP threshold` off a comparison written on the angle (`arccos(X) >= c`) or on its cosine
+    (`X <= cos(c)`, `P <= cos(c) * Q` with Q a product of norms).  Returns (form, cosine expr, threshold expr, operator on
+    the ANGLE) or ("squared",) or None."""
+    e = inline_locals(fn, cmp_)
+    if not (isinstance(e, ast.Compare) and len(e.ops) == 1):
+        return None
+    flip = {ast.Gt: ast.Lt, ast.Lt: ast.Gt, ast.GtE: ast.LtE, ast.LtE: ast.GtE}
+    l, r_, op = e.left, e.comparators[0], type(e.ops[0])
+    if op not in flip:
+        return None
+
+    def as_angle(x):
+        if isinstance(x, ast.Call) and call_name(x) in ("arccos", "acos", "safeArccos") and len(x.args) == 1:
+            a = x.args[0]
+            if isinstance(a, ast.Call) and call_name(a) in ("clip", "safeClip") and a.args:
+                a = a.args[0]
+            return a
+        return None
+
+    la, ra = as_angle(l), as_angle(r_)
+    if la is not None and ra is None:
+        return "angle", la, r_, op
+    if ra is not None and la is None:
+        return "angle", ra, l, flip[op]
+
+    def cos_split(x):
+        """x == cos(T) [* Q...] -> (T, [Q...])"""
+        fac = []
+
+        def mul(y):
+            if isinstance(y, ast.BinOp) and isinstance(y.op, ast.Mult):
+                mul(y.left)
+                mul(y.right)
+            else:
+                fac.append(y)
+
+        mul(x)
+        cs = [f for f in fac if isinstance(f, ast.Call) and call_name(f) == "cos" and len(f.args) == 1]
+        sq = [f for f in fac if isinstance(f, ast.BinOp) and isinstance(f.op, ast.Pow) and isinstance(f.left, ast.Call) and call_name(f.left) == "cos"]
+        if sq:
+            return "squared"
+        if len(cs) != 1:
+            return None
+        rest = [f for f in fac if f is not cs[0]]
+        if not all(isinstance(f, ast.Call) and call_name(f) in ("norm", "sqrt") for f in rest):
+            return None
+        return cs[0].args[0], rest
+
+    for side, other, o in ((r_, l, op), (l, r_, flip[op])):
+        sp = cos_split(side)
+        if sp == "squared":
+            return ("squared",)
+        if sp is not None:
+            thr, rest = sp
+            cosine = other
+            for q in rest:
+                cosine = ast.BinOp(cosine, ast.Div(), q)
+            # `cosine o cos(thr)`: the angle compares the other way round
+            return "cosine", cosine, thr, flip[o]
+    return None
+
+
 def rule_r3(chk, p, t, rid="C14.R3"):
     r = chk.rule(
         rid,
@@ -432,6 +517,27 @@ def lineOfSight({a}, {b}):
             elif canon(l) == want_r and unparse(rr_) == lhs and o is flip[op]:
                 r.ok(fn.qualname, why + " (sides swapped)", fn.loc(rets[0]))
             else:
+                # the same predicate on cosines instead of angles?  (arccos is decreasing: angle >= c <=> cos(angle) <= cos c)
+                sem = _angle_threshold(fn, c) if fn.name in _ANGLE_PREDICATES else None
+                if sem is not None and sem[0] == "squared":
+                    r.violation(fn.qualname, f"comparator:{unparse(c)}", f"{fn.name} returns `{unparse(c)[:100]}`: both sides are squared, so the sign of the cosine is lost - directions more than 90 degrees away from the axis are treated like their mirror images; documented: {why}", fn.loc(rets[0]))
+                    return
+                if sem is not None:
+                    from rsa import ratfun as rf
+
+                    form, cosine, thr, op2 = sem
+                    want_cos, want_thr = _ANGLE_PREDICATES[fn.name]
+                    try:
+                        cos_ok = rf.same_value(_sort_dots(cosine), _sort_dots(rf.parse(want_cos)))
+                        thr_ok = rf.same_value(thr, rf.parse(want_thr))
+                    except Exception:  # noqa: BLE001 - not a rational expression
+                        cos_ok = thr_ok = False
+                    if cos_ok and thr_ok and op2 is op:
+                        r.ok(fn.qualname, why + f" ({form} form)", fn.loc(rets[0]))
+                        return
+                    if form == "cosine" and not cos_ok:
+                        r.undecided(fn.qualname, f"{fn.name} compares `{unparse(cosine)[:70]}` with the cosine of the threshold: not recognised as the cosine of the documented angle", fn.loc(rets[0]))
+                        return
                 r.violation(fn.qualname, f"comparator:{unparse(c)}", f"{fn.name} returns `{unparse(c)}`; documented: {why} (`{lhs} {'>=' if op is ast.GtE else '>'} {rhs}`)", fn.loc(rets[0]))
 
         r.guard(fn.qualname, one)
